@@ -519,56 +519,7 @@ func (c *Ctx) c15W5(f *ircFacts) {
 	if pm == nil {
 		return
 	}
-	info := pm.Info()
-	// the pre-registration gate: a condition mentioning loggedIn and comparisons command != <const>
-	pre := map[string]bool{}
-	ast.Inspect(pm.Body(), func(n ast.Node) bool {
-		ifs, ok := n.(*ast.IfStmt)
-		if !ok {
-			return true
-		}
-		mentionsLoggedIn := false
-		ast.Inspect(ifs.Cond, func(m ast.Node) bool {
-			if se, ok := m.(*ast.SelectorExpr); ok && se.Sel.Name == "loggedIn" {
-				mentionsLoggedIn = true
-			}
-			return true
-		})
-		if !mentionsLoggedIn {
-			return true
-		}
-		collect := func(inf *types.Info, root ast.Node) {
-			ast.Inspect(root, func(m ast.Node) bool {
-				switch x := m.(type) {
-				case *ast.BinaryExpr:
-					if x.Op == token.NEQ || x.Op == token.EQL {
-						if s, ok := astx.ConstString(inf, x.Y); ok && s != "" {
-							pre[s] = true
-						}
-					}
-				case *ast.CaseClause:
-					for _, e := range x.List {
-						if s, ok := astx.ConstString(inf, e); ok && s != "" {
-							pre[s] = true
-						}
-					}
-				}
-				return true
-			})
-		}
-		collect(info, ifs.Cond)
-		// a predicate of the module applied to the command ("allowed before registration"): its constants
-		for _, call := range astx.Calls(ifs.Cond, false) {
-			if fn := astx.Callee(info, call); fn != nil {
-				if h := c.P.FuncOf(fn); h != nil && h.Body() != nil && h.Obj != nil {
-					if sig, ok := h.Obj.Type().(*types.Signature); ok && sig.Results().Len() == 1 && sig.Results().At(0).Type().String() == "bool" {
-						collect(h.Info(), h.Body())
-					}
-				}
-			}
-		}
-		return true
-	})
+	pre := c.preRegistrationCommands(f)
 	if len(pre) < 3 {
 		r.Break("C15.W5: the pre-registration gate of ProcessMessage was not recognised (%d commands)", len(pre))
 		return
@@ -627,4 +578,93 @@ func (c *Ctx) c15W5(f *ircFacts) {
 		}
 	}
 	r.Check(n >= 1, "C15.W5", "ircserver", "relays in pre-registration handlers found", "-", itoa(n), "no relay with the acting prefix in a pre-registration handler (vacuity guard)")
+}
+
+// preRegistrationCommands: the commands ProcessMessage lets through for a session that has not registered yet — the string
+// constants compared with the command in the condition that mentions loggedIn, the constants of a boolean predicate of the
+// module called there, or the keys of a package-level map literal indexed there.
+func (c *Ctx) preRegistrationCommands(f *ircFacts) map[string]bool {
+	pre := map[string]bool{}
+	pm := f.PM
+	if pm == nil {
+		return pre
+	}
+	info := pm.Info()
+	ast.Inspect(pm.Body(), func(n ast.Node) bool {
+		ifs, ok := n.(*ast.IfStmt)
+		if !ok {
+			return true
+		}
+		mentionsLoggedIn := false
+		ast.Inspect(ifs.Cond, func(m ast.Node) bool {
+			if se, ok := m.(*ast.SelectorExpr); ok && se.Sel.Name == "loggedIn" {
+				mentionsLoggedIn = true
+			}
+			return true
+		})
+		if !mentionsLoggedIn {
+			return true
+		}
+		collect := func(inf *types.Info, root ast.Node) {
+			ast.Inspect(root, func(m ast.Node) bool {
+				switch x := m.(type) {
+				case *ast.BinaryExpr:
+					if x.Op == token.NEQ || x.Op == token.EQL {
+						if s, ok := astx.ConstString(inf, x.Y); ok && s != "" {
+							pre[s] = true
+						}
+					}
+				case *ast.CaseClause:
+					for _, e := range x.List {
+						if s, ok := astx.ConstString(inf, e); ok && s != "" {
+							pre[s] = true
+						}
+					}
+				case *ast.IndexExpr:
+					// <package-level map literal>[command]
+					if id, ok := ast.Unparen(x.X).(*ast.Ident); ok {
+						if v, ok := inf.Uses[id].(*types.Var); ok && v.Pkg() != nil && v.Parent() == v.Pkg().Scope() {
+							for _, pkg := range c.P.Pkgs {
+								for _, file := range pkg.Syntax {
+									ast.Inspect(file, func(d ast.Node) bool {
+										vs, ok := d.(*ast.ValueSpec)
+										if !ok {
+											return true
+										}
+										for k, nm := range vs.Names {
+											if pkg.TypesInfo.Defs[nm] == types.Object(v) && k < len(vs.Values) {
+												if cl, ok := ast.Unparen(vs.Values[k]).(*ast.CompositeLit); ok {
+													for _, el := range cl.Elts {
+														if kv, ok := el.(*ast.KeyValueExpr); ok {
+															if s, ok := astx.ConstString(pkg.TypesInfo, kv.Key); ok && s != "" {
+																pre[s] = true
+															}
+														}
+													}
+												}
+											}
+										}
+										return true
+									})
+								}
+							}
+						}
+					}
+				}
+				return true
+			})
+		}
+		collect(info, ifs.Cond)
+		for _, call := range astx.Calls(ifs.Cond, false) {
+			if fn := astx.Callee(info, call); fn != nil {
+				if h := c.P.FuncOf(fn); h != nil && h.Body() != nil && h.Obj != nil {
+					if sig, ok := h.Obj.Type().(*types.Signature); ok && sig.Results().Len() == 1 && sig.Results().At(0).Type().String() == "bool" {
+						collect(h.Info(), h.Body())
+					}
+				}
+			}
+		}
+		return true
+	})
+	return pre
 }
